@@ -520,7 +520,15 @@ def schedule_check(stmts, preds, ctx0, seed, max_ext, nrandom):
 
 def analyse(inp, max_ext=150, nrandom=12, extra_edges=None, want_schedule=True):
     """-> dict(violations=[(clause, detail, data)], ...measured facts...)"""
-    info = build(inp["ops"])
+    try:
+        info = build(inp["ops"])
+    except OutOfDomain:
+        raise
+    except Exception as ex:
+        # an internal exception of the builder (e.g. an assertion) on a call sequence of the property's domain
+        return {"n": 0, "violations": [("builder-accepts-the-call-sequence",
+                                        "carrying out the builder calls raised %s: %s" % (type(ex).__name__, ex), None)],
+                "conflict_pairs": 0, "missing": [], "listing": "(builder raised)", "schedule": "n/a"}
     stmts = info["stmts"]
     n = len(stmts)
     ids = [s.id for s in stmts]
